@@ -939,7 +939,8 @@ func rulesC12(r *Run) {
 	ruleStartExclusion(r, "R1")
 	ruleWaiterRelease(r, "R1")
 	ruleJobSubmittedDetached(r, "R1")
-	r.Expect("R1", 3)
+	ruleRejectedStartNoWrite(r, "R1")
+	r.Expect("R1", 4)
 
 	r.Kind("R2", "K5+K2")
 	ruleValidateStartState(r, "R2")
@@ -2178,4 +2179,77 @@ func ruleJobSubmittedDetached(r *Run, rule string) {
 		return
 	}
 	r.Check(rule, "runPlan:job-submitted-under-detached-context", bpos, bad == "", "%s", orOK(bad, "the job is submitted under a context derived in runPlan"))
+}
+
+// ruleRejectedStartNoWrite (round-3 seed C12-5): a Start that is refused changes nothing in the store. On every path of
+// Plans.Start that returns an error, no call reaches a mutating method of the vault (Update*, Create, Delete) — the
+// seed "closed out" a plan whose submission was too old on the refusing path, and the age test comes before the
+// state validators, so the refused second Start of a long finished plan rewrote its stored result as Failed.
+func ruleRejectedStartNoWrite(r *Run, rule string) {
+	fn := r.fnByKey(rule, execKey("Plans.Start"))
+	if fn == nil {
+		return
+	}
+	fl, paths, ok := r.flowPaths(rule, fn)
+	if !ok {
+		return
+	}
+	paths = OwnOnly(paths)
+	info := fl.Info
+	g := r.P.CallGraph()
+	mutates := func(k string) string {
+		isMut := func(c string) bool {
+			if !strings.HasPrefix(c, "workflow/storage.") {
+				return false
+			}
+			name := c[strings.LastIndex(c, ".")+1:]
+			return strings.HasPrefix(name, "Update") || name == "Create" || name == "Delete"
+		}
+		if isMut(k) {
+			return k
+		}
+		if r.P.Funcs[k] == nil {
+			return ""
+		}
+		for t := range g.Reach([]string{k}, func(e CallEdge) bool {
+			return (r.P.Funcs[e.Callee] != nil && !e.Async && strings.HasPrefix(e.Callee, "internal/")) || strings.HasPrefix(e.Callee, "workflow/storage.")
+		}) {
+			if isMut(t) {
+				return t
+			}
+		}
+		return ""
+	}
+	bad := ""
+	var bpos token.Pos = fn.Decl.Pos()
+	n := 0
+	for i := range paths {
+		p := &paths[i]
+		if p.Exit != ExitReturn {
+			continue
+		}
+		var ret *Event
+		for j := range p.Ev {
+			if p.Ev[j].Kind == EvReturn && !p.Ev[j].Deferred {
+				ret = &p.Ev[j]
+			}
+		}
+		if ret == nil || len(ret.Rhs) != 1 || ValueKey(info, ret.Rhs[0]) == "nil" {
+			continue
+		}
+		n++
+		for _, e := range p.Ev {
+			if e.Kind != EvCall || e.Deferred {
+				continue
+			}
+			if m := mutates(CalleeKey(e)); m != "" && bad == "" {
+				bad, bpos = "a path of Start that returns an error (exit guard "+ExitGuardKey(fl, p)+") calls "+ShortFn(CalleeKey(e))+", which reaches "+ShortFn(m)+": a refused Start rewrites the stored plan", e.Pos
+			}
+		}
+	}
+	if n == 0 {
+		r.Unresolved(rule, "Plans.Start path returning an error")
+		return
+	}
+	r.Check(rule, "Plans.Start:refused-start-writes-nothing", bpos, bad == "", "%s", orOK(bad, "no mutating vault call on any refusing path"))
 }
